@@ -92,7 +92,7 @@ def check_roundtrip(ctx, case):
         W = PS.World('LIVE')
         cls = PS.build_class(prog, rec, W)
         live = PS.execute(cls, prog)
-        if live[0] == 'exc' and live[1] not in ('Err',):
+        if live[0] == 'exc' and live[1] not in (prog.get('ending_exc', 'Err'),):
             raise Violation('operation raised %s into its caller: %r' % (live[1], live[2]), 'live-unexpected-exception')
         if not W.recording_ids:
             raise Violation('no recording was started for a recorded operation', 'no-recording')
@@ -217,7 +217,8 @@ def cases():
     def fam(name, values):
         params = st.sampled_from([None, None, {'copy_data_on_intercepion': True}, {'copy_data_on_intercepion': True},
                                   {'sampling_rate': 1.5}, {'ignore_enforced_sampling': True}])
-        return st.fixed_dictionaries({'prog': with_fallbacks(PS.programs(values=values, params=params, swallowed_interrupts=True)),
+        return st.fixed_dictionaries({'prog': with_fallbacks(PS.programs(values=values, params=params, swallowed_interrupts=True,
+                                                                           ending_excs=V.ENDING_EXCS)),
                                       'cassette': st.sampled_from(CASSETTES),
                                       'style': st.sampled_from(['direct', 'metadata-class']), 'family': st.just(name),
                                       'prior': st.sampled_from([None, None, None, ['record'], ['record', 'play']])})
